@@ -11,7 +11,7 @@ def c05(tier, seed):
     scs = []
     crops = L.CROPS if tier == "thorough" else rnd.sample(L.CROPS, 10)
     soil_opts = ["light", "heavy", "restrictive", "table"]
-    stress_opts = ["watered", "drought", "waterlog", "cold", "heat"]
+    stress_opts = ["watered", "drought", "waterlog", "cold", "heat", "mild"]
     combos = [(c, so, st) for c in crops for so in soil_opts for st in stress_opts]
     if tier != "thorough":
         combos = rnd.sample(combos, 22)
@@ -38,10 +38,20 @@ def c05(tier, seed):
             kw["irr"] = {"method": 5, "kw": {"depth": 20}}
         elif st == "cold":
             kw["wparams"] = {"tmean": {"hot": 20, "warm": 13, "monsoon": 18}.get(reg, 13)}
+        elif st == "mild":
+            kw["irr"] = {"method": 1, "kw": {"SMT": [rnd.choice([20, 30])] * 4, "MaxIrr": rnd.choice([6, 8])}}
         elif st == "heat":
             kw["wparams"] = {"tmean": 34, "dtr": 9}
             kw["irr"] = {"method": 1, "kw": {"SMT": [70] * 4}}
         scs.append(S(crop, seed=rnd.randrange(10 ** 6), regime=reg, **kw))
+    # harvest-index adjustment near its cap: crops with a pre-anthesis bonus under mild persistent stress
+    for crop in (["Cotton", "CottonGDD", "Sorghum", "SorghumGDD"] if tier == "thorough" else ["Cotton", "SorghumGDD", "Sorghum"]):
+        scs.append(S(crop, "SandyLoam", seed=rnd.randrange(10 ** 6), regime="hot", irr={"method": 1, "kw": {"SMT": [20] * 4, "MaxIrr": 6}}))
+    # ... on the repository's own Mediterranean weather (dry summers): deficit irrigation of summer crops
+    years = list(range(1980, 2001)) if tier == "thorough" else [1984, 1987, rnd.choice([1988, 1990, 1995])]
+    for y in years:
+        crop = rnd.choice(["Cotton", "CottonGDD"]) if y in (1984, 1987, 1988) else rnd.choice(["Cotton", "CottonGDD", "Sorghum", "SorghumGDD", "Maize", "Sunflower", "Soybean"])
+        scs.append(L.builtin_scenario(crop, y, irr={"method": 1, "kw": {"SMT": [rnd.choice([20, 20, 30])] * 4, "MaxIrr": rnd.choice([6, 6, 8])}}))
     scs += L.hard_cases(rnd, None if tier == "thorough" else 5)
     return scs
 
